@@ -33,6 +33,9 @@ type c17l3Script struct {
 	K    int      `json:"k,omitempty"`  // absolute preemption point (set by the shrinker; overrides KPm)
 	K2Pm int      `json:"k2_pm"`        // >=0: B is itself preempted after this per-mille and A finishes first
 	K2   int      `json:"k2,omitempty"` // absolute form of K2Pm
+	// Prelude: operations performed serially on the shared objects before the clients
+	// start (history): "open-forged" = an Open that is rejected, "open-ok", "seal".
+	Prelude []string `json:"prelude,omitempty"`
 }
 
 type l3Verdict struct {
@@ -143,6 +146,20 @@ func L3TraceeMain(scriptJSON string) {
 		snaps[i] = append([]byte{}, b...)
 	}
 	fmtRes := func(o []byte, e bool) string { return fmt.Sprint(hx(o), e) }
+	for _, w := range []*l3World{twin, shared} {
+		for _, step := range s.Prelude {
+			switch step {
+			case "open-forged":
+				bad := cloneSlack(w.cts[0])
+				bad[len(bad)-1] ^= 1
+				w.aead.Open(nil, w.nonces[0], bad, w.aads[0])
+			case "open-ok":
+				w.aead.Open(nil, w.nonces[0], w.cts[0], w.aads[0])
+			case "seal":
+				w.aead.Seal(nil, w.nonces[1], w.msgs[1], w.aads[1])
+			}
+		}
+	}
 	wantA, wantB := fmtRes(l3Prep(s.A, twin)()), fmtRes(l3Prep(s.B, twin)())
 	fa, fb := l3Prep(s.A, shared), l3Prep(s.B, shared)
 	res := make(chan [2]string, 2)
